@@ -70,7 +70,14 @@ class Poisson(DiscreteRandomVariable):
         self.mu = mu
 
     def cdf(self, x):
-        return math.exp(-self.mu) * sum(self.mu**j / factorial(j) for j in range(x+1))
+        # The terms mu**j/j! are built incrementally; once they have underflowed
+        # to 0 (which needs j > mu) no later term can contribute.
+        total, term, j = 0, 1, 0
+        while j <= x and (term > 0 or j <= self.mu):
+            total += term
+            j += 1
+            term = term * self.mu / j
+        return math.exp(-self.mu) * total
 
     def pmf(self, x):
         if x < 0:
